@@ -22,7 +22,9 @@ TECHNIQUE = ('runtime monitoring: exception taxonomy + result-shape contract + l
              'grammar-built TLV trees')
 RULE = ('inputs = (i) ALL byte strings of length <= 3 over a 28-octet structural alphabet, (ii) valid encodings damaged '
         'by 1..3 mutations (bit flips, structural overwrite, insert/delete, tag/length rewrites incl. 0x80 and huge '
-        'lengths, truncation, splice), (iii) TLV trees with wrong lengths/tags nested up to depth 40; each x {BER, CER, '
+        'lengths, truncation, splice), (iii) TLV trees with wrong lengths/tags nested up to depth 40, (iv) ALL contents '
+        'of length <= 2 (REAL, OID, BIT STRING, GeneralizedTime: <= 3; thorough: one more) over 26 octets that are '
+        'structural inside contents, under each of 17 leaf tags; each x {BER, CER, '
         'DER} x {one-shot, streaming} x {no type, the seed type, an unrelated type}; non-trivial = input is not a valid '
         'encoding of the guiding type; distinct = sha1 of (input, decoder, mode, type)')
 ASSUMPTIONS = ['nesting is bounded (<= 40) so RecursionError by sheer depth is outside the claim',
@@ -43,6 +45,18 @@ FIXED_SPECS = [
     ('setof', ('tag', 'I', 'C', 2, ('char', 'UTF8String'))),
     ('any',),
 ]
+
+
+# (iv) contents of one primitive element, exhaustively over octets that are structural *inside* contents (REAL
+# format / exponent-length octets, BIT STRING pad counts, OID continuation bits, sign boundaries, decimal REAL and
+# time characters), for every leaf tag, primitive and (string types) constructed
+LEAF_TAGS = [(0x01, ('bool',)), (0x02, ('int',)), (0x03, ('bits',)), (0x04, ('octs',)), (0x05, ('null',)), (0x06, ('oid',)),
+             (0x09, ('real',)), (0x0a, ('enum', (('e0', 0), ('e1', 1)))), (0x0c, ('char', 'UTF8String')),
+             (0x13, ('char', 'PrintableString')), (0x17, ('useful', 'UTCTime')), (0x18, ('useful', 'GeneralizedTime')),
+             (0x1e, ('char', 'BMPString')), (0x1c, ('char', 'UniversalString')),
+             (0x23, ('bits',)), (0x24, ('octs',)), (0x2c, ('char', 'UTF8String'))]
+CONTENT_ALPHABET = [0x00, 0x01, 0x02, 0x03, 0x04, 0x07, 0x08, 0x09, 0x40, 0x41, 0x42, 0x43, 0x7f, 0x80, 0x81, 0x82, 0x83,
+                    0xbf, 0xc0, 0xff, 0x30, 0x2e, 0x45, 0x2b, 0x2d, 0x20]
 
 
 class CountingBytesIO(io.BytesIO):
@@ -218,6 +232,28 @@ def run_shard(shard, tier, seed):
                 res.see('exhaustive-strings-len4')
         if done_exhaustive:
             res.see('exhaustive-shards-completed')
+        # (iv) leaf contents
+        leaf_specs = [(tg, T, B.schema(T)) for tg, T in LEAF_TAGS]
+        budget_leaf = C.Budget(tier, quick=25.0, thorough=900.0)
+        leaf_done = True
+        for ln in range(0, (3 if tier == 'quick' else 4) + 1):
+            for tup in itertools.product(CONTENT_ALPHABET, repeat=ln):
+                idx += 1
+                if idx % shard['nshards'] != shard['shard']:
+                    continue
+                content = bytes(tup)
+                for tg, T, sch in leaf_specs:
+                    if ln == (3 if tier == 'quick' else 4) and tg not in (0x09, 0x06, 0x03, 0x23, 0x18):
+                        continue
+                    data = bytes([tg, ln]) + content
+                    run_input(res, sc, data, None, None, 'leaf-contents')
+                    run_input(res, sc, data, T, sch, 'leaf-contents')
+                    res.see('leaf-content-strings')
+            if budget_leaf.expired():
+                leaf_done = False
+                break
+        if leaf_done:
+            res.see('leaf-content-shards-completed')
         budget = C.Budget(tier, quick=40.0)
         # (ii) mutated encodings and (iii) grammar trees
         for i in range(shard['n']):
